@@ -987,6 +987,89 @@ example : OriginsCanonical gVia id ∧
 
 end RealWitnesses
 
+/-! ## The isort section behind `is_in_stdlib`: `__future__` (FUTURE) is a stdlib module -/
+
+/-- Tie A: the installed isort has exactly the five sections of the model; `is_in_stdlib` maps each
+of them (evaluated with `place_module` held constant) to what `Imports.isInStdlib` says, which is
+what the spec demands (`Spec.stdlibSection`); the body of `is_in_stdlib` is the single membership
+test; `is_in_pip` does not consult isort; isort places `__future__` in FUTURE, dotted stdlib names
+in STDLIB, a module under its src_paths (the cwd of `python -m rattr`) in FIRSTPARTY — unless the name
+is a stdlib name, which wins —, relative names in LOCALFOLDER and everything else in THIRDPARTY: all
+five sections occur. -/
+theorem tieA_isort_sections :
+    Generated.C12.isortSections = ["FUTURE", "STDLIB", "THIRDPARTY", "FIRSTPARTY", "LOCALFOLDER"] ∧
+    Generated.C12.stdlibOfSection
+      = Generated.C12.isortSections.map (fun s => (s, isInStdlib (Section.ofString s))) ∧
+    (∀ s ∈ Generated.C12.isortSections, Section.ofString s ≠ .other ∧
+        isInStdlib (Section.ofString s) = stdlibSection (Section.ofString s)) ∧
+    Generated.C12.isInStdlibBody = ["return place_module(name) in (sections.STDLIB, sections.FUTURE)"] ∧
+    Generated.C12.isInPipConsultsIsort = false ∧
+    ("__future__", "FUTURE") ∈ Generated.C12.placeSamples ∧ ("os.path", "STDLIB") ∈ Generated.C12.placeSamples ∧
+    ("collections.abc", "STDLIB") ∈ Generated.C12.placeSamples ∧
+    ("lm0 (a module in src_paths)", "FIRSTPARTY") ∈ Generated.C12.placeSamples ∧
+    ("keyword (also a module in src_paths)", "STDLIB") ∈ Generated.C12.placeSamples ∧
+    (".relative", "LOCALFOLDER") ∈ Generated.C12.placeSamples ∧
+    ("zz_no_such_module", "THIRDPARTY") ∈ Generated.C12.placeSamples := by
+  decide
+
+/-- The model of `is_in_stdlib` is the spec's classification, section by section. -/
+theorem isInStdlib_eq_spec (s : Section) : isInStdlib s = stdlibSection s := by
+  cases s <;> rfl
+
+theorem levelFlags_stdlib {lvl : Nat} (h : (levelFlags lvl).stdlib = true) : 3 ≤ lvl := by
+  match lvl with
+  | 0 => simp [levelFlags] at h
+  | 1 => simp [levelFlags] at h
+  | 2 => simp [levelFlags] at h
+  | _ + 3 => omega
+
+/-- **C12, stdlib sections.** A module isort places in FUTURE (`__future__`) or STDLIB is analysed
+only at level 3 — for every graph, target, fuel, and wherever the import stands (target or any
+followed module). -/
+theorem C12_stdlib_section_only_at_level3 (g : Graph ν ω) (sec : ν → Section) (lvl fuel : Nat)
+    (target : List (Imp ν)) (hs : SectionsAgree g sec) (n : ν) (m : Module ν ω)
+    (hl : lookup g n = some m) (hsec : stdlibSection (sec n) = true)
+    (hn : n ∈ (bfs g (levelFlags lvl) fuel target).state.analysed) : 3 ≤ lvl := by
+  have hm := lookup_mem hl
+  have hstd : m.inStdlib = true := by
+    rw [hs m hm.1, hm.2, isInStdlib_eq_spec]; exact hsec
+  exact levelFlags_stdlib ((C12_class_respects_flags g (levelFlags lvl) fuel target n m hl hn).2.1 hstd)
+
+/-- The FUTURE instance: `from __future__ import …` never gets `__future__.py` analysed below
+level 3. -/
+theorem C12_future_only_at_level3 (g : Graph ν ω) (sec : ν → Section) (lvl fuel : Nat)
+    (target : List (Imp ν)) (hs : SectionsAgree g sec) (n : ν) (m : Module ν ω)
+    (hl : lookup g n = some m) (hsec : sec n = .future)
+    (hn : n ∈ (bfs g (levelFlags lvl) fuel target).state.analysed) : 3 ≤ lvl :=
+  C12_stdlib_section_only_at_level3 g sec lvl fuel target hs n m hl (by rw [hsec]; rfl) hn
+
+section FutureWitnesses
+
+private def mkF (name origin : Nat) (inStdlib : Bool) (imports : List Nat) : Module Nat Nat :=
+  { name := name, origin := some origin, readable := true, blacklisted := false, inPip := false,
+    inStdlib := inStdlib, excluded := false, imports := imports.map (fun n => ⟨some n, false⟩) }
+
+/-- target → lib (1) → `__future__` (9), and target → `__future__`. -/
+private def gFut (verdict : Bool) : Graph Nat Nat := [mkF 1 11 false [9], mkF 9 19 verdict []]
+private def tFut : List (Imp Nat) := [⟨some 9, false⟩, ⟨some 1, false⟩]
+private def secFut : Nat → Section := fun n => if n = 9 then .future else .thirdparty
+
+/-- Non-vacuity: with the verdicts of the code as it is, `__future__` is skipped at levels 1 and 2
+(rung `stdlib`) and analysed at level 3. -/
+example : SectionsAgree (gFut true) secFut ∧
+    (bfs (gFut true) (levelFlags 1) (fuelBound (gFut true) tFut) tFut).state.analysed = [1] ∧
+    (bfs (gFut true) (levelFlags 2) (fuelBound (gFut true) tFut) tFut).state.analysed = [1] ∧
+    (bfs (gFut true) (levelFlags 3) (fuelBound (gFut true) tFut) tFut).state.analysed = [9, 1] := by decide
+
+/-- **Fixed defect (0d0bd4b).** With the verdict the old comparison `== sections.STDLIB` gave for the
+FUTURE section (`inStdlib = false`), `__future__` is analysed at level 1 although the spec does not
+permit a stdlib module there: the old verdicts do not satisfy `SectionsAgree`. -/
+theorem C12_fixed_future_as_local :
+    (bfs (gFut false) (levelFlags 1) (fuelBound (gFut false) tFut) tFut).state.analysed = [9, 1]
+    ∧ ¬ SectionsAgree (gFut false) secFut ∧ stdlibSection (secFut 9) = true := by decide
+
+end FutureWitnesses
+
 /-! ## How the follow level reaches the loop: command line, pyproject.toml, `-c` file, default
 
 `FollowConfig.stage` = `Cli.parseArguments` (the two-pass configuration stage, model of C20) ∘
